@@ -100,18 +100,18 @@ PY_TYPES = {"str": (str,), "bool": (bool,), "int": (int,), "float": (float,), "l
 
 
 def placeholder(sym: Sym, how: str = "") -> str:
-    return f"{OPEN}{sym.name}{('~' + how) if how else ''}{CLOSE}"
+    return f"{OPEN}{sym.name}{('|' + how) if how else ''}{CLOSE}"
 
 
 def read_placeholder(text: str) -> Any | None:
     """The value a placeholder token stands for when it is read as a number: the symbol itself if it was printed in the library's number format,
-    otherwise a value derived from it (printed some other way: a different number in general)."""
+    otherwise a *different* symbol derived from it (`x~fmt(.3f)`: x printed some other way and read back - a different number in general)."""
     t = text.strip()
     if t.startswith(OPEN) and t.endswith(CLOSE) and t.count(OPEN) == 1:
         body = t[1:-1]
-        if "~" in body:
-            name, how = body.split("~", 1)
-            return App(f"reread:{how}", (Sym(name),))
+        if "|" in body:
+            name, how = body.rsplit("|", 1)
+            return Sym(f"{name}~{how}")
         return Sym(body)
     return None
 
@@ -615,6 +615,15 @@ class ObjExec(AbsExec):
             if h is not None:
                 return h(self, e, args, kw)
             what = f.name if isinstance(f, TypeV) else f.what
+            what = what.removeprefix("import:")
+            if what in ("itertools.chain", "chain"):  # pure functions of the standard library, by their documented meaning
+                return [x for a_ in args for x in self.iterate(a_, e)]
+            if what in ("itertools.chain.from_iterable", "chain.from_iterable"):
+                return [x for a_ in self.iterate(args[0], e) for x in self.iterate(a_, e)]
+            if what in ("copy.copy",) and len(args) == 1 and isinstance(args[0], (list, dict, set)):
+                return type(args[0])(args[0])
+            if what in ("typing.cast", "cast") and len(args) == 2:
+                return args[1]
             if what.startswith("np."):  # numpy is uninterpreted: the result is a value nothing is known about
                 from .absexec import freeze
                 return App(what, tuple(freeze(a) for a in args), tuple(sorted((k, freeze(x)) for k, x in kw.items())))
